@@ -96,7 +96,19 @@ pub fn open_flow(
                     // if the user is paying more than the flow_fee and is not trying to open a
                     // flow with the same asset as the flow_fee, refund the difference
                     match flow_asset.info.clone() {
-                        AssetInfo::Token { .. } => {}
+                        AssetInfo::Token { .. } => {
+                            // a cw20 flow asset never shares the fee's native denom, refund the difference
+                            messages.push(
+                                BankMsg::Send {
+                                    to_address: info.sender.clone().into_string(),
+                                    amount: vec![Coin {
+                                        amount: paid_amount - flow_fee.amount,
+                                        denom: flow_fee_denom.clone(),
+                                    }],
+                                }
+                                .into(),
+                            );
+                        }
                         AssetInfo::NativeToken {
                             denom: flow_asset_denom,
                         } => {
